@@ -125,7 +125,7 @@ type AxisArm struct {
 type AxisTable struct {
 	Handler    *ssa.Function
 	Arms       map[string]*AxisArm
-	DefaultOK  bool   // default arm leaves the result untouched (returns without storing)
+	DefaultOK  bool // default arm leaves the result untouched (returns without storing)
 	DefaultWhy string
 	err        []string
 }
